@@ -233,7 +233,10 @@ def oracle_code(case):
         if _ba(r1) != saved:
             raise Fail("earlier_result_unchanged_by_later_call", _diff(r1, saved), "no difference", klass=name)
         if isinstance(r1, bitarray):
-            r1.invert()
+            try:
+                r1.invert()
+            except TypeError:
+                pass  # an immutable (frozen) buffer cannot be scribbled on - nothing to check
         a1.invert()
         st, r2 = call(fn, argument.copy(), **kw)
         if _ba(r2) != saved:
